@@ -140,6 +140,13 @@ theorem growDst_sites (cap dstLen size : Nat) : Reflect.growDst cap dstLen size 
       KW.sliceChk_ok (by omega) (by omega) (by omega), bind_ok]
   · rw [if_neg h, KW.makeChk_nat, bind_ok, KW.sliceChk_ok (by omega) (by omega) (by omega), bind_ok]
 
+/-- `hmacTag`: the 8-byte length block takes `PutUint64`, and `h.Sum(nil)[:l]` is in range when the
+tag is no longer than the hash (`aescbcaead_params_sound` in C07Imported shows that of the four
+constructors regenerated from the source). -/
+theorem hmacTag_sites (l hashLen : Nat) (h : l ≤ hashLen) : KW.hmacTag l hashLen = .ok () := by
+  unfold KW.hmacTag
+  exact KW.bind_eq KW.makeChk8 (KW.bind_eq KW.putUint64_8 (KW.sliceChk_ok (by omega) (by omega) (by omega)))
+
 /-- `verifyPublicKeyEdDSA` after fix 2829ef0 reaches `ed25519.Verify` only with a 32-byte key. -/
 theorem verifyEd25519_sites (rawOK : Bool) (keyLen : Nat) : (Reflect.verifyEd25519 rawOK keyLen).isPanic = false := by
   unfold Reflect.verifyEd25519
@@ -161,7 +168,7 @@ theorem cited_sites_exist :
       (· ∈ thm_names% [Kit.C07.aeskw_wrap_sites, Kit.C07.aeskw_unwrap_sites, Kit.C07.arrXor_sites,
         Kit.C07.arrConcat_sites, Kit.C07.decodeString_reflect_sites, Kit.C07.decodeMetadata_reflect_sites,
         Kit.C07.resolveAliases_reflect_sites, Kit.C07.newAESCBCAEAD_sites, Kit.C07.growDst_sites,
-        Kit.C07.verifyEd25519_sites, Kit.C07.typeElem_sites]) = true := by
+        Kit.C07.verifyEd25519_sites, Kit.C07.typeElem_sites, Kit.C07.hmacTag_sites]) = true := by
   decide +kernel
 
 end Kit.C07
